@@ -6,6 +6,7 @@ import (
 	"go/token"
 	"go/types"
 	"strings"
+	"sync"
 
 	"golang.org/x/tools/go/ssa"
 )
@@ -180,6 +181,9 @@ func stripConv(v ssa.Value) ssa.Value {
 			if len(x.Edges) < 2 {
 				return v
 			}
+			if c := nilCarriedPhi(x); c != nil {
+				return c
+			}
 			for _, e := range x.Edges[1:] {
 				if e != x.Edges[0] {
 					return v
@@ -193,6 +197,117 @@ func stripConv(v ssa.Value) ssa.Value {
 			return v
 		}
 	}
+}
+
+var nilCarried sync.Map // *ssa.Phi → ssa.Value (nil Const) or false
+
+// nilCarriedPhi: a loop variable that is nil on entry and on every way round the loop — `var ctxErr error; for … { if ctxErr =
+// f(); ctxErr != nil { break }; … }`: each value carried by a back edge is either the variable itself, the constant nil, or a
+// value that was compared with nil on the way with the non-nil side unable to come back to the loop header. Such a phi
+// IS nil wherever it is read (the value after the loop is a different phi, which merges it with the break's value).
+func nilCarriedPhi(ph *ssa.Phi) ssa.Value {
+	if r, ok := nilCarried.Load(ph); ok {
+		v, _ := r.(ssa.Value)
+		return v
+	}
+	nilCarried.Store(ph, false) // while being decided (phis referring to each other)
+	rawNil := func(v ssa.Value) bool {
+		c, ok := v.(*ssa.Const)
+		return ok && c.Value == nil
+	}
+	res := func() ssa.Value {
+		switch ph.Type().Underlying().(type) {
+		case *types.Pointer, *types.Interface, *types.Slice, *types.Map, *types.Chan, *types.Signature:
+		default:
+			return nil
+		}
+		hdr := ph.Block()
+		nback := 0
+		for i, pred := range hdr.Preds {
+			e := ph.Edges[i]
+			for {
+				switch w := e.(type) {
+				case *ssa.ChangeType:
+					e = w.X
+					continue
+				case *ssa.ChangeInterface:
+					e = w.X
+					continue
+				}
+				break
+			}
+			if !hdr.Dominates(pred) {
+				if !rawNil(e) {
+					return nil
+				}
+				continue
+			}
+			nback++
+			if e == ssa.Value(ph) || rawNil(e) {
+				continue
+			}
+			// compared with nil on every way to this back edge, the non-nil side never returns to the header
+			tested := false
+			refs := e.Referrers()
+			if refs == nil {
+				return nil
+			}
+			for _, r := range *refs {
+				cmp, ok := r.(*ssa.BinOp)
+				if !ok || (cmp.Op != token.EQL && cmp.Op != token.NEQ) || !(rawNil(cmp.X) || rawNil(cmp.Y)) {
+					continue
+				}
+				for _, rr := range *cmp.Referrers() {
+					iff, ok := rr.(*ssa.If)
+					if !ok || !iff.Block().Dominates(pred) {
+						continue
+					}
+					nonNil := iff.Block().Succs[0]
+					if cmp.Op == token.EQL {
+						nonNil = iff.Block().Succs[1]
+					}
+					if !blockReachesAvoiding(nonNil, hdr, nil) {
+						tested = true
+					}
+				}
+			}
+			if !tested {
+				return nil
+			}
+		}
+		if nback == 0 {
+			return nil
+		}
+		return ssa.NewConst(nil, ph.Type())
+	}()
+	if res == nil {
+		nilCarried.Store(ph, false)
+	} else {
+		nilCarried.Store(ph, res)
+	}
+	return res
+}
+
+// blockReachesAvoiding: some path leads from block a to block b (a == b counts) without entering a block of avoid.
+func blockReachesAvoiding(a, b *ssa.BasicBlock, avoid map[*ssa.BasicBlock]bool) bool {
+	seen := map[*ssa.BasicBlock]bool{}
+	var walk func(x *ssa.BasicBlock) bool
+	walk = func(x *ssa.BasicBlock) bool {
+		if x == b {
+			return true
+		}
+		if seen[x] || avoid[x] {
+			return false
+		}
+		seen[x] = true
+		for _, s := range x.Succs {
+			if walk(s) {
+				return true
+			}
+		}
+		return false
+	}
+	return walk(a)
 }
 
 // loadedField: if v is a load (*FieldAddr) returns the field name and the base object value.
